@@ -188,6 +188,14 @@ Section Sim.
                          mine (with_waiters sc rest) in
     with_susp sc1 t UNone.
 
+  (* reaper_cancel = q.put_nowait: the reaper is woken (one ready-queue entry) only if the queue really got an item while the
+     reaper sits in q.get() and has not been woken already *)
+  Definition kick_reaper (before : sched) (sc : sched) : sched :=
+    if Nat.ltb (length (st_rq (sc_st before))) (length (st_rq (sc_st sc)))
+       && match st_rbusy (sc_st sc) with None => true | Some _ => false end
+       && negb (existsb (fun w => match w with WReaper => true | _ => false end) (sc_work sc))
+    then push_work WReaper sc else sc.
+
   Definition FUEL : nat := 40.
 
   (* run_coro's finally from the current position up to the next suspension *)
@@ -248,12 +256,12 @@ Section Sim.
         | SCancel x =>
             if known (sc_st sc1) x then
               let sc2 := app (LCancel (Some t) x) sc1 in
-              if running (sc_st sc2) t then next (push_work WReaper sc2) else fail 2 sc2
+              if running (sc_st sc2) t then next (kick_reaper sc1 sc2) else fail 2 sc2
             else nokey tt
         | SCancelSelf =>
-            with_susp (push_work WReaper (app (LCancel (Some t) t) (with_pc sc1 t (S k)))) t USelf
+            with_susp (kick_reaper sc1 (app (LCancel (Some t) t) (with_pc sc1 t (S k)))) t USelf
         | SCreate c => next (push_work (WStart c) (app (LCreate c KCreate) sc1))
-        | SClaim n => next (push_work WReaper (app (LClaim t n) sc1))
+        | SClaim n => next (kick_reaper sc1 (app (LClaim t n) sc1))
         | SCall x =>
             (* HA runs the handler inline: create_task for the service run, then [await task] *)
             let sc2 := push_work (WStart x) (app (LCreate x KSvc) (with_pc sc1 t (S k))) in
@@ -368,7 +376,7 @@ Section Sim.
         if known (sc_st sc) x then
           let ok := st_ours (sc_st sc) x in
           let sc1 := emit DRIVER (EF x ok) (app (LCancel None x) sc) in
-          if ok then push_work WReaper sc1 else sc1
+          if ok then kick_reaper sc sc1 else sc1
         else emit DRIVER (EF x false) sc
     end.
 
@@ -682,7 +690,8 @@ Section Spec.
 
   (* S6: a cancelled task really ends where it is.  Judged when no callback of the case suspends (then every cancellation
      completes within its instant and the reaper is never busy): after a successful cancel request for x made while x was
-     suspended in its body, x emits no further marker / wait / call-return event, and it ends cancelled *)
+     suspended in its body, x emits no further marker / wait / call-return event, it ends cancelled, and whatever it still
+     does (its done-callbacks) happens at the instant of the request: nobody has to wait for it *)
   Definition body_event (e : event) : bool :=
     match e_kind e with EM _ | EW _ _ _ _ | ER _ _ _ _ => true | _ => false end.
   Definition ended_by (x : tid) (e : event) : bool :=
@@ -709,6 +718,7 @@ Section Spec.
                                         && match rev mine_before with e :: _ => e_time e <? e_time ereq | [] => false end) in
             if suspended then
               negb (existsb (fun e => N.eqb (e_who e) x && body_event e) after) && ft_cancelled (sp_fin x)
+              && forallb (fun e => negb (N.eqb (e_who e) x) || N.eqb (e_time e) (e_time ereq)) after
             else true
         | _, _ => true
         end) ops.
